@@ -292,7 +292,29 @@ func (sys *asyncSys) submit(task, seq int, op AOp, reuse *[]byte) *Sub {
 		fields := []log.Field{log.String("id", id), log.Int("len", op.Size), log.String("pad", filler(task, seq, op.Size))}
 		if sys.tag != nil {
 			ctx := context.WithValue(context.Background(), ctxKey, evKey{task: task, seq: seq})
-			pv, st = call(func() { log.Record(ctx, levelByName(op.Lvl), sys.tag, 1, fields...) })
+			// through the entry point that belongs to the level (every other time), else Record:
+			// no entry point may treat the queue differently
+			lv := levelByName(op.Lvl)
+			switch {
+			case seq%2 == 1:
+				pv, st = call(func() { log.Record(ctx, lv, sys.tag, 1, fields...) })
+			case strings.EqualFold(op.Lvl, "INFO"):
+				pv, st = call(func() { log.Info(ctx, sys.tag, fields...) })
+			case strings.EqualFold(op.Lvl, "WARN"):
+				pv, st = call(func() { log.Warn(ctx, sys.tag, fields...) })
+			case strings.EqualFold(op.Lvl, "ERROR"):
+				pv, st = call(func() { log.Error(ctx, sys.tag, fields...) })
+			case strings.EqualFold(op.Lvl, "FATAL") && seq%4 == 0:
+				pv, st = call(func() { log.Fatal(ctx, sys.tag, fields...) })
+			case strings.EqualFold(op.Lvl, "FATAL"):
+				pv, st = call(func() { log.Fatalf(ctx, sys.tag, "id=%s pad=%d", id, op.Size) })
+			case strings.EqualFold(op.Lvl, "TRACE"):
+				pv, st = call(func() { log.Trace(ctx, sys.tag, func() []log.Field { return fields }) })
+			case strings.EqualFold(op.Lvl, "DEBUG"):
+				pv, st = call(func() { log.Debug(ctx, sys.tag, func() []log.Field { return fields }) })
+			default:
+				pv, st = call(func() { log.Record(ctx, lv, sys.tag, 1, fields...) })
+			}
 		} else {
 			pv, st = call(func() {
 				e := log.GetEvent()
